@@ -277,3 +277,165 @@ func VerifC12Step() {
 		}
 	}
 }
+
+// ---- racing calls --------------------------------------------------------------------------------------------
+
+func vBuildWorld(pre map[string]map[string]bool) *vCacheWorld {
+	w := &vCacheWorld{im: &vInformerMap{running: map[string]*vInformer{}}, src: &vSource{handled: map[*vInformer]bool{}},
+		watches: map[string]map[string]bool{}}
+	w.c = &Cache{scheme: vScheme(), informerMap: &vSlowInformerMap{m: w.im}, informerReferences: map[schema.GroupVersionKind]map[OwnerReference]struct{}{}, cacheSource: w.src}
+	for _, k := range vKinds {
+		w.watches[k] = map[string]bool{}
+		for _, o := range vOwners {
+			if pre[k][o] {
+				w.watches[k][o] = true
+				if w.c.informerReferences[vGVK(k)] == nil {
+					w.c.informerReferences[vGVK(k)] = map[OwnerReference]struct{}{}
+					inf := &vInformer{kind: k}
+					w.im.running[k] = inf
+					w.src.handled[inf] = true
+				}
+				w.c.informerReferences[vGVK(k)][vOwnerRef(o)] = struct{}{}
+			}
+		}
+	}
+	return w
+}
+
+// vSlowInformerMap is the scripted informer map behind its own lock (as the real InformerMap), with a pause inside
+// Get and Delete: starting and stopping informers takes time, other goroutines run meanwhile.
+type vSlowInformerMap struct{ m *vInformerMap }
+
+func (s *vSlowInformerMap) Get(ctx context.Context, gvk schema.GroupVersionKind, obj runtime.Object,
+) (cache.SharedIndexInformer, client.Reader, error) {
+	verifrt.Pause()
+	verifrt.Lock()
+	defer verifrt.Unlock()
+	return s.m.Get(ctx, gvk, obj)
+}
+
+func (s *vSlowInformerMap) Delete(ctx context.Context, gvk schema.GroupVersionKind) error {
+	verifrt.Pause()
+	verifrt.Lock()
+	defer verifrt.Unlock()
+	return s.m.Delete(ctx, gvk)
+}
+
+// VerifC12Race: two cache calls (Watch / Free / Get) race from an arbitrary valid state; every interleaving at
+// lock granularity (bounded pre-emptions). Afterwards the representation invariant holds, the reference table is
+// what the two calls produce in either order, and a read either failed with CacheNotStarted or was served - it
+// never left an informer behind that nobody watches.
+func VerifC12Race() {
+	nKinds := verifrt.Bound("kinds", 1)
+	nOwners := verifrt.Bound("owners", 2)
+	pre := map[string]map[string]bool{}
+	for _, k := range vKinds[:nKinds] {
+		pre[k] = map[string]bool{}
+		for _, o := range vOwners[:nOwners] {
+			pre[k][o] = verifrt.Bool("pre.watch." + k + "." + o)
+		}
+	}
+	type call struct {
+		op    int // 0 Watch | 1 Free | 2 Get
+		kind  string
+		owner string
+	}
+	var calls [2]call
+	for t := 0; t < 2; t++ {
+		p := "t" + string(rune('0'+t))
+		calls[t].op = verifrt.IntRange(p+".op", 0, 2)
+		calls[t].kind = vKinds[verifrt.IntRange(p+".kind", 0, nKinds-1)]
+		calls[t].owner = vOwners[verifrt.IntRange(p+".owner", 0, nOwners-1)]
+	}
+	for iter := 0; iter < verifrt.Repeat(); iter++ {
+		w := vBuildWorld(pre)
+		ctx := context.Background()
+		var errs [2]error
+		done := make(chan int, 2)
+		for t := 0; t < 2; t++ {
+			go func(t int) {
+				c := calls[t]
+				var err error
+				if !verifrt.Symbolic() {
+					verifrt.Pause() // natively: randomise which call starts first
+				}
+				switch c.op {
+				case 0:
+					err = w.c.Watch(ctx, vOwner(c.owner), vObjOfKind(c.kind))
+				case 1:
+					err = w.c.Free(ctx, vOwner(c.owner))
+				case 2:
+					err = w.c.Get(ctx, client.ObjectKey{Namespace: "ns", Name: "x"}, vObjOfKind(c.kind))
+				}
+				verifrt.Lock()
+				errs[t] = err
+				verifrt.Unlock()
+				done <- t
+			}(t)
+		}
+		<-done
+		<-done
+		w.c.informerReferencesMux.Lock()
+		verifrt.Lock()
+		w.checkInvariant("C12/race")
+		// expected reference table: apply both calls in order a,b and in order b,a (reads do not change it)
+		expect := func(order [2]int) map[string]map[string]bool {
+			st := map[string]map[string]bool{}
+			for _, k := range vKinds {
+				st[k] = map[string]bool{}
+				for o, v := range pre[k] {
+					if v {
+						st[k][o] = true
+					}
+				}
+			}
+			for _, t := range order {
+				c := calls[t]
+				switch c.op {
+				case 0:
+					st[c.kind][c.owner] = true
+				case 1:
+					for _, k := range vKinds {
+						delete(st[k], c.owner)
+					}
+				}
+			}
+			return st
+		}
+		same := func(st map[string]map[string]bool) bool {
+			ok := true
+			for _, k := range vKinds {
+				got := w.owners(k)
+				for _, o := range vOwners {
+					if got[o] != st[k][o] {
+						ok = false
+					}
+				}
+			}
+			return ok
+		}
+		verifrt.Assert(same(expect([2]int{0, 1})) || same(expect([2]int{1, 0})), "C12/race-result-is-one-of-the-two-orders")
+		for t := 0; t < 2; t++ {
+			c, other := calls[t], calls[1-t]
+			switch c.op {
+			case 0, 1:
+				verifrt.Assert(errs[t] == nil, "C12/race-call-succeeds")
+			case 2:
+				watchedBefore := false
+				for _, v := range pre[c.kind] {
+					watchedBefore = watchedBefore || v
+				}
+				var ns *CacheNotStartedError
+				notStarted := errors.As(errs[t], &ns)
+				verifrt.Assert(errs[t] == nil || notStarted, "C12/race-read-served-or-refused")
+				if other.op == 2 || (other.op == 0 && other.kind != c.kind) {
+					// the other call cannot change whether this kind is watched
+					verifrt.Assert(notStarted == !watchedBefore, "C12/race-read-of-unwatched-kind-fails")
+				}
+			}
+		}
+		verifrt.Unlock()
+		w.c.informerReferencesMux.Unlock()
+	}
+	verifrt.Reach("race-done")
+}
